@@ -280,6 +280,10 @@ class WaitConnAck(State):
             else:
                 self.event_initiator_rcv_conn_nack()
 
+            #: The CER has just been sent (or the connection refused): what 
+            #: the peer sends from now on belongs to the next state.
+            return
+
         if self.has_recv_queue_message():
             self.msg = self.get_message()
 
